@@ -289,7 +289,7 @@ type k17MatRec struct {
 type k17MatOps struct {
 	site   string
 	det    func() float64
-	inv    func() []float64                // nil if the type has no Inverse
+	inv    func() []float64 // nil if the type has no Inverse
 	mci    func(c []float64, det float64) []float64
 	svd    func() (u, s, v []float64)
 	eig    func() []complex128
@@ -591,13 +591,16 @@ type k17LinRec struct {
 	Panic   string  `json:"panic"`
 	Got     [][]int `json:"got"`
 	Exact   bool    `json:"exact"`
-	Resid   int     `json:"resid"`   // bucket of max |A got - B|
-	TolOK   bool    `json:"tolOK"`   // BiCGSTAB: the mean absolute residual is below the requested tolerance
-	MaxIt   int     `json:"maxIt"`   // BiCGSTAB: iteration limit (0 = none; only symmetric matrices are run without one)
-	HasFwd  bool    `json:"hasFwd"`  // Cholesky: Apply (A * X) reported
+	Resid   int     `json:"resid"`  // bucket of max |A got - B|
+	TolOK   bool    `json:"tolOK"`  // BiCGSTAB: the mean absolute residual is below the requested tolerance
+	MaxIt   int     `json:"maxIt"`  // BiCGSTAB: iteration limit (0 = none; only symmetric matrices are run without one)
+	HasFwd  bool    `json:"hasFwd"` // Cholesky: Apply (A * X) reported
 	Fwd     [][]int `json:"fwd"`
 	FwdEx   bool    `json:"fwdEx"`
 	Raw     string  `json:"raw"`
+	Rows    [][]int `json:"rows,omitempty"` // ls3reg: the rows handed to the routine, its penalty and right-hand side
+	Lam     int     `json:"lam,omitempty"`
+	Rhs     [][]int `json:"rhs,omitempty"`
 }
 
 const k17BicgTol = 1e-10
@@ -669,6 +672,59 @@ func k17Lin(c k17LinCase, emit func(any)) {
 			sol = [][]float64{{x[0]}, {x[1]}, {x[2]}}
 		})
 		finish(&rec, sol)
+		// ridge regression with an integer penalty: the rows [I; A] and the right-hand side
+		// [I; A] X + lam [X; 0] have the regularised solution X exactly; the record carries the 3x3
+		// normal system (rows^T rows + lam I) x = rows^T rhs, which the judge re-derives in integers
+		for _, lam := range []int{1, 3, 40} {
+			rr := base
+			rr.Sub, rr.Site = "ls3reg", "numerical.LeastSquaresReg3"
+			rr.Lam = lam
+			rr.Rows = [][]int{{1, 0, 0}, {0, 1, 0}, {0, 0, 1}}
+			rr.Rhs = [][]int{{c.X[0][0] * (1 + lam)}, {c.X[1][0] * (1 + lam)}, {c.X[2][0] * (1 + lam)}}
+			for i, r := range c.A {
+				rr.Rows = append(rr.Rows, []int{r[0], r[1], r[2]})
+				rr.Rhs = append(rr.Rhs, []int{c.B[i][0]})
+			}
+			m := [][]int{{lam, 0, 0}, {0, lam, 0}, {0, 0, lam}}
+			mb := [][]int{{0}, {0}, {0}}
+			for k, r := range rr.Rows {
+				for i := 0; i < 3; i++ {
+					for j := 0; j < 3; j++ {
+						m[i][j] += r[i] * r[j]
+					}
+					mb[i][0] += r[i] * rr.Rhs[k][0]
+				}
+			}
+			rr.A, rr.B, rr.N = m, mb, 3
+			var rsol [][]float64
+			rr.Outcome, rr.Panic = withDeadline(5*time.Second, func() {
+				rows := make([]numerical.Vec3, len(rr.Rows))
+				b := make([]float64, len(rr.Rows))
+				for i, r := range rr.Rows {
+					rows[i] = numerical.Vec3{float64(r[0]), float64(r[1]), float64(r[2])}
+					b[i] = float64(rr.Rhs[i][0])
+				}
+				x := numerical.LeastSquaresReg3(rows, b, float64(lam), 1e-6)
+				rsol = [][]float64{{x[0]}, {x[1]}, {x[2]}}
+			})
+			if rr.Outcome == "ok" && rsol != nil {
+				rr.Got, rr.Exact = k17Project2(rsol)
+				// the residual of the normal system, relative to its largest coefficient
+				big := 1
+				for _, row := range m {
+					for _, v := range row {
+						if v > big {
+							big = v
+						} else if -v > big {
+							big = -v
+						}
+					}
+				}
+				rr.Resid = k17Bucket(k17Resid(rr.A, rsol, rr.B) / float64(big))
+				rr.Raw = k17Raw(rsol)
+			}
+			emit(rr)
+		}
 	case "chol":
 		rec := base
 		rec.Site = fmt.Sprintf("numerical.SparseCholesky.ApplyInverseVec%d", c.D)
@@ -797,8 +853,8 @@ type k17SearchCase struct {
 }
 
 type k17SearchRec struct {
-	ID int    `json:"id"`
-	Fam string `json:"fam"`
+	ID   int    `json:"id"`
+	Fam  string `json:"fam"`
 	Site string `json:"site"`
 	k17SearchCase
 	Outcome  string  `json:"outcome"`
@@ -1056,37 +1112,37 @@ type k17BezRec struct {
 	P     [][]int `json:"P"`
 	Panic string  `json:"panic"`
 
-	Ev   [][]int `json:"ev"` // Eval(k/D) * D^n, k = 0..D
-	EvEx bool    `json:"evEx"`
-	Pv   [][]int `json:"pv"` // Polynomials() evaluated at k/D, * D^n
-	PvEx bool    `json:"pvEx"`
-	S1   [][][]int `json:"s1"` // control points of the first half of Split(k/D), * D^n
-	S2   [][][]int `json:"s2"`
-	SEx  bool      `json:"sEx"`
-	HasSm bool    `json:"hasSm"`
-	Sm   [][]int `json:"sm"` // <<first.Eval(1/2), second.Eval(1/2)>> * (2D)^n as <<x1, y1, x2, y2>>
-	SmEx bool    `json:"smEx"`
-	Tr   [][]int `json:"tr"` // Transpose().Eval(k/D) * D^n
-	TrEx bool    `json:"trEx"`
-	Ct   [][]int `json:"ct"` // CurveTranspose(b).Eval(k/D) * D^n
-	CtEx bool    `json:"ctEx"`
+	Ev    [][]int   `json:"ev"` // Eval(k/D) * D^n, k = 0..D
+	EvEx  bool      `json:"evEx"`
+	Pv    [][]int   `json:"pv"` // Polynomials() evaluated at k/D, * D^n
+	PvEx  bool      `json:"pvEx"`
+	S1    [][][]int `json:"s1"` // control points of the first half of Split(k/D), * D^n
+	S2    [][][]int `json:"s2"`
+	SEx   bool      `json:"sEx"`
+	HasSm bool      `json:"hasSm"`
+	Sm    [][]int   `json:"sm"` // <<first.Eval(1/2), second.Eval(1/2)>> * (2D)^n as <<x1, y1, x2, y2>>
+	SmEx  bool      `json:"smEx"`
+	Tr    [][]int   `json:"tr"` // Transpose().Eval(k/D) * D^n
+	TrEx  bool      `json:"trEx"`
+	Ct    [][]int   `json:"ct"` // CurveTranspose(b).Eval(k/D) * D^n
+	CtEx  bool      `json:"ctEx"`
 
-	MonoX bool    `json:"monoX"` // control x strictly monotone: inverse lookups reported
-	Ix    []int   `json:"ix"`    // InverseX(Eval(k/D).X) * D
-	IxEx  bool    `json:"ixEx"`
-	Yx    []int   `json:"yx"` // EvalX(Eval(k/D).X) * D^n
-	YxEx  bool    `json:"yxEx"`
-	MonoY bool    `json:"monoY"`
-	Iy    []int   `json:"iy"` // CurveInverseX(CurveTranspose(b), Eval(k/D).Y) * D
-	IyEx  bool    `json:"iyEx"`
+	MonoX bool  `json:"monoX"` // control x strictly monotone: inverse lookups reported
+	Ix    []int `json:"ix"`    // InverseX(Eval(k/D).X) * D
+	IxEx  bool  `json:"ixEx"`
+	Yx    []int `json:"yx"` // EvalX(Eval(k/D).X) * D^n
+	YxEx  bool  `json:"yxEx"`
+	MonoY bool  `json:"monoY"`
+	Iy    []int `json:"iy"` // CurveInverseX(CurveTranspose(b), Eval(k/D).Y) * D
+	IyEx  bool  `json:"iyEx"`
 
 	Len   int  `json:"len"` // Length(1e-6, 0)
 	LenEx bool `json:"lenEx"`
 	// |Length(1e-6) - length of the polyline through 16384 Eval samples| and
 	// |Length(b) - Length(left half) - Length(right half)| as decimal exponents (k17Bucket)
-	LenArc int `json:"lenArc"`
-	LenAdd int `json:"lenAdd"`
-	Raw   string `json:"raw"`
+	LenArc int    `json:"lenArc"`
+	LenAdd int    `json:"lenAdd"`
+	Raw    string `json:"raw"`
 }
 
 func k17StrictMono(p [][]int, c int) bool {
